@@ -20,6 +20,9 @@ SEC_USAGE = [(a, True) for a in (C.CKA_ENCRYPT, C.CKA_DECRYPT, C.CKA_SIGN, C.CKA
 IV16 = bytes(range(16))
 
 
+VARIANTS = (["ossl-asan", "ossl-plain"], ["ossl-plain", "ossl-asan"])      # the fs-fault clause runs the un-instrumented build under fsx
+
+
 class C09(CheckBase):
     ID = "C09"
 
@@ -408,7 +411,11 @@ def main(tier):
                             "user/public(/so); each case in its own process snapshot; a case counts as a trace when the call failed and the full before/after "
                             "observation (all sessions' objects and attributes, handle validity, raw token directory) was compared; states = compared "
                             "observations + start states built"}
-    rep.assumptions = ["file store; breakage menu and valid-call list as in the check source", "a case whose call succeeds is not a failing call and is only counted"]
+    rep.assumptions = ["file store; breakage menu and valid-call list as in the check source", "a case whose call succeeds is not a failing call and is only counted",
+                       "fs-fault clause: one injected failure per call (every file-system syscall of the call x its realistic errnos), file store"]
+    # calls that fail because a file-system operation of the store failed (checks/fsfault.py)
+    import fsfault
+    rep.coverage["fs_fault_clause"] = fsfault.run("C09", tier, rep)
     return rep.finish()
 
 
